@@ -23,7 +23,14 @@ extended by a line-by-line port of
 
 New state: the current instance graph lives in the state (`State.g`; `Op.reload` carries the new one, re-extracted from
 the reloaded configuration), per-proxy outputs / completion expression / retry limits, `noSpawn`, `dbOut` (committed
-task_outputs rows), `optStopCp`, `dbHoldCp`, queued DB writes, `reloaded`.
+task_outputs rows; `spawn_task` revives a removed instance from them), `optStopCp`, `dbHoldCp`, queued DB writes,
+`reloaded`, `qMembers` (members of the default queue: a proxy flagged queued whose name is no member is never released),
+the behaviour flags `Flags` (three defects with proposed repairs, probed from the live code), and per proxy `dbSn` /
+`tsDirty`: the submit number of the task_states row and `TaskState.time_updated` (the row is refreshed by
+`put_task_pool` only for proxies whose state was reset; a reload does NOT carry `time_updated` over, so the refresh
+is lost and a later restart takes the stale submit number - ported as is).  A restart builds every proxy from the
+definition on disk: a task the definition no longer has gets an implicit definition (no sequences, standard
+outputs, blank completion expression = any final output).
 
 Original header of Sched2 / Sched v1:
 
